@@ -424,8 +424,20 @@ func ruleR0(c *Ctx, surfaceOnly bool) {
 		}
 		f := op.Func
 		if surfaceOnly {
-			if ok, _ := surfaceFunc(p, f); !ok {
+			ok, name := surfaceFunc(p, f)
+			if !ok {
 				continue
+			}
+			if len(c.Args) > 0 {
+				sel := false
+				for _, a := range c.Args {
+					if a == name {
+						sel = true
+					}
+				}
+				if !sel {
+					continue
+				}
 			}
 		} else if !inEngineScope(f) {
 			continue
@@ -664,6 +676,7 @@ func ruleR16(c *Ctx) {
 					continue
 				}
 				leaves := 0
+				disabled := 0
 				var spin []string
 				for _, cl := range doneClauses {
 					// does the clause body return to the loop head?
@@ -696,6 +709,20 @@ func ruleR16(c *Ctx) {
 						return Continue
 					})
 					back = found
+					// the clause disables its own case: `ch = nil` for the channel variable it received from
+					if back {
+						if id, ok := unparen(cl.Op.Chan).(*ast.Ident); ok {
+							in := info(f)
+							for _, st := range cl.Clause.Body {
+								if as, ok := st.(*ast.AssignStmt); ok && len(as.Lhs) == 1 && len(as.Rhs) == 1 && isNilIdent(as.Rhs[0]) {
+									if lid, ok := unparen(as.Lhs[0]).(*ast.Ident); ok && objOf(in, lid) == objOf(in, id) {
+										back = false
+										disabled++
+									}
+								}
+							}
+						}
+					}
 					if back {
 						spin = append(spin, exprStringShort(cl.Op.Chan))
 					} else {
@@ -707,7 +734,45 @@ func ruleR16(c *Ctx) {
 						"case on "+strings.Join(spin, ", ")+" returns to the select: busy loop from cancellation until the loop's other exit")
 					continue
 				}
-				c.Ok(f, si.Stmt, desc, "parking loop leaves through a done-source case", fmt.Sprintf("%d done-source case(s), each leaves the loop", leaves), true)
+				// a self-disabling done clause may arrange the exit through a sibling clause: its body
+				// (including goroutines it starts) sends on a channel whose receiving clause leaves the loop
+				if leaves-disabled < 1 {
+					in := info(f)
+					for _, dcl := range doneClauses {
+						for _, other := range si.Clauses {
+							if other.Op == nil || other.Op.Kind != OpRecv || other == dcl {
+								continue
+							}
+							// does `other` leave the loop?
+							otherLeaves := false
+							for _, st := range other.Clause.Body {
+								if _, ok := st.(*ast.ReturnStmt); ok {
+									otherLeaves = true
+								}
+							}
+							if !otherLeaves {
+								continue
+							}
+							sends := false
+							for _, st := range dcl.Clause.Body {
+								ast.Inspect(st, func(z ast.Node) bool {
+									if ss, ok := z.(*ast.SendStmt); ok && sameRef(in, ss.Chan, other.Op.Chan) {
+										sends = true
+									}
+									return true
+								})
+							}
+							if sends {
+								leaves++
+							}
+						}
+					}
+				}
+				if leaves-disabled < 1 {
+					c.Bad(f, si.Stmt, desc, "a goroutine parked in an unbounded loop must be able to leave it through a done-source case", "every done-source case only disables itself; none leaves the loop")
+					continue
+				}
+				c.Ok(f, si.Stmt, desc, "parking loop leaves through a done-source case", fmt.Sprintf("%d done-source case(s): %d leave the loop, %d disable themselves after firing once", leaves, leaves-disabled, disabled), true)
 			}
 		}
 	}
